@@ -83,7 +83,13 @@ func lookupLit(l Lit) (*ssa.Lookup, bool, bool) {
 // flowsFrom: v IS (a copy of) a value satisfying pred — only value-preserving
 // steps are followed: conversions, phi merges, loads of locals, whole-slice
 // expressions. Arithmetic, len, and calls are not crossed (unlike dependsOn).
-func flowsFrom(v ssa.Value, pred func(ssa.Value) bool) bool {
+func flowsFrom(v ssa.Value, pred func(ssa.Value) bool) bool { return flowsFromOpt(v, pred, true) }
+
+// flowsFromLocal: same, but a parameter of the function the walk started in is a leaf (the
+// callers' arguments are not looked at).
+func flowsFromLocal(v ssa.Value, pred func(ssa.Value) bool) bool { return flowsFromOpt(v, pred, false) }
+
+func flowsFromOpt(v ssa.Value, pred func(ssa.Value) bool, climb bool) bool {
 	type key struct {
 		v   ssa.Value
 		top ssa.CallInstruction
@@ -154,7 +160,7 @@ func flowsFrom(v ssa.Value, pred func(ssa.Value) bool) bool {
 				}
 				return false
 			}
-			if up >= maxCallDepth {
+			if up >= maxCallDepth || !climb {
 				return false
 			}
 			for _, c := range callSitesOf(t.Parent()) {
